@@ -8,7 +8,8 @@ Mirrors:
   src/kernel/resource/Action.cpp            Action::{suspend, resume, set_bound, set_sharing_penalty} (Lazy branches),
                                             ActionHeap::{update, remove}
   src/kernel/lmm/System.cpp                 update_variable_penalty (early return when the penalty is unchanged: the
-                                            action does NOT enter the modified set), update_variable_bound
+                                            action does NOT enter the modified set — hence `changed` in Action::resume /
+                                            set_sharing_penalty), update_variable_bound
   src/kernel/resource/Model.cpp             Model::next_occurring_event_lazy (loop body for one modified action)
   src/kernel/resource/models/cpu_ti.cpp     CpuTiProfile (time points / integral), integrate_simple_point, solve_simple
 -/
@@ -63,13 +64,32 @@ def suspend (p : Prec) (now : Rat) (a : LAction) : LAction :=
   let b := if ¬ a.finished ∧ 0 < a.penalty then b.updateRemainsLazy p now else b
   { b with suspended := true }
 
-/-- `Action::resume()` under Lazy: the heap entry is dropped whether or not the LMM system was modified -/
+/-- `Action::resume()` under Lazy:
+```
+bool changed = get_variable()->get_penalty() != get_sharing_penalty();
+update_variable_penalty(get_variable(), get_sharing_penalty());  suspended_ = RUNNING;
+if (changed && model_->is_update_lazy()) model_->get_action_heap().remove(this);
+```
+the heap entry is dropped only when the LMM system is modified (the action then enters the modified set) -/
 def resume (a : LAction) : LAction :=
+  let b := a.lmmSetPenalty a.penalty
+  if a.penalty = a.varPenalty then { b with suspended := false }
+  else { b with suspended := false, heap := none, htype := .unset }
+
+/-- `Action::set_sharing_penalty(q)` under Lazy: idem (`changed = get_variable()->get_penalty() != sharing_penalty`) -/
+def setPenalty (a : LAction) (q : Rat) : LAction :=
+  let b := { a with penalty := q }.lmmSetPenalty q
+  if q = a.varPenalty then b else { b with heap := none, htype := .unset }
+
+/-- `Action::resume()` BEFORE the fix "re-setting an unchanged sharing penalty under the lazy update lost the completion
+date of the action": the heap entry was dropped whether or not the LMM system was modified.  Kept for the regression
+theorems `lazy_noop_*_regression`. -/
+def resumePre (a : LAction) : LAction :=
   let b := a.lmmSetPenalty a.penalty
   { b with suspended := false, heap := none, htype := .unset }
 
-/-- `Action::set_sharing_penalty(q)` under Lazy: idem -/
-def setPenalty (a : LAction) (q : Rat) : LAction :=
+/-- `Action::set_sharing_penalty(q)` BEFORE that fix -/
+def setPenaltyPre (a : LAction) (q : Rat) : LAction :=
   let b := { a with penalty := q }.lmmSetPenalty q
   { b with heap := none, htype := .unset }
 
@@ -127,6 +147,73 @@ def fullRun (p : Prec) : List Seg → Rat → Rat → Rat × Rat
 def work : List Seg → Rat
   | [] => 0
   | s :: ss => s.rate * s.dur + work ss
+
+/-! ### histories of user operations and solver rounds, seen by both algorithms -/
+
+/-- user operations on a started action (simcalls issued between two engine rounds, at the current date) -/
+inductive UOp where
+  | suspend
+  | resume
+  | setPenalty (q : Rat)
+  | setBound
+  deriving Repr
+
+/-- one engine round: the user operations issued at the current date; then `solve()`, in which the constraints of the action
+were modified by something else when `touch` and which gives `rate` to the variable if it is enabled; then `dur` seconds
+pass -/
+structure Step where
+  ops : List UOp
+  touch : Bool
+  rate : Rat
+  dur : Rat
+
+/-- the operation under Lazy -/
+def LAction.apply (p : Prec) (now : Rat) (a : LAction) : UOp → LAction
+  | .suspend => a.suspend p now
+  | .resume => a.resume
+  | .setPenalty q => a.setPenalty q
+  | .setBound => a.setBound now
+
+/-- the operation under Full (C21's model; `set_bound` changes the bound of the variable, which this model only sees
+through the rates the solver gives) -/
+def applyF (f : Action) : UOp → Action
+  | .suspend => f.suspend
+  | .resume => f.resume
+  | .setPenalty q => f.setPenalty q
+  | .setBound => f
+
+/-- Lazy: the operations, then `Model::next_occurring_event_lazy(now)`.  `System::solve` puts an enabled variable in the
+modified set when one of its constraints was modified (`touch`); a variable whose value changes is always in that case
+(selective update, C17) -/
+def lazyStep (p : Prec) (now : Rat) (a : LAction) (s : Step) : LAction :=
+  let a := s.ops.foldl (LAction.apply p now) a
+  let a := if 0 < a.varPenalty ∧ (s.touch = true ∨ s.rate ≠ a.varValue) then { a with modified := true } else a
+  a.resolve p now s.rate
+
+/-- Full: the operations, then `solve()` (`assignFrom`: only enabled variables get a value) -/
+def fullSolve (f : Action) (s : Step) : Action :=
+  let f := s.ops.foldl applyF f
+  if 0 < f.varPenalty then { f with varValue := s.rate } else f
+
+/-- … then `update_actions_state_full` after `dur`: `update_remains(get_rate() * delta)` -/
+def fullStep (p : Prec) (f : Action) (s : Step) : Action :=
+  (fullSolve f s).updateRemains p ((fullSolve f s).rate * s.dur)
+
+def runOps (p : Prec) : List Step → Rat → LAction → Action → Rat × LAction × Action
+  | [], now, a, f => (now, a, f)
+  | s :: ss, now, a, f => runOps p ss (now + s.dur) (lazyStep p now a s) (fullStep p f s)
+
+/-- Full's action does not complete during the history (its completion is what the theorem is about) -/
+def StaysAlive (p : Prec) : List Step → Action → Prop
+  | [], _ => True
+  | s :: ss, f => (fullSolve f s).rate * s.dur < (fullSolve f s).remains ∧ StaysAlive p ss (fullStep p f s)
+
+/-- priorities are positive (`Exec::update_priority(priority)` passes `1/priority`) -/
+def OpOk : UOp → Prop
+  | .setPenalty q => 0 < q
+  | _ => True
+
+def StepOk (s : Step) : Prop := (∀ o ∈ s.ops, OpOk o) ∧ 0 ≤ s.rate ∧ 0 ≤ s.dur
 
 /-! ### TI: integration of a speed profile (one period) -/
 
